@@ -15,7 +15,10 @@ COQ_TARGETS = ["theories/Properties/C26.vo"]
 PROPERTY_FILES = ["theories/Properties/C26.v"]
 RULE = ("fault enumeration: every primitive of _safe_create_replace_file (stat, NamedTemporaryFile, write [prefix 0/2 chars], flush, fsync, "
         "close, chmod, move) raising, and the process dying (os._exit) before/after each, x permission bits {644,600,755} x suffix on/off x "
-        "encodings; natural UnicodeEncodeError; 3-file runs with a fault in the middle file; BOM/mode end to end through `sqlfluff fix`. "
+        "encodings; natural UnicodeEncodeError; 3-file runs with a fault in the middle file; BOM/mode end to end through `sqlfluff fix`; "
+        "`sqlfluff fix` on files of 1-19 KB (around the 8 KiB / 16 KiB buffer sizes, below the large-file skip limit) whose non-ASCII characters "
+        "sit at the beginning / middle / only near the end, in utf-8, utf-8-sig, utf-16 (autodetected) and latin-1 / cp1252 / utf-8 (explicit "
+        "--encoding): the rewritten file must decode in its original encoding to exactly the original text with the fixed ranges replaced. "
         "non-trivial = a run with a fault; distinct = distinct (fault, mode, suffix, encoding)")
 ASSUMPTIONS = ["os.rename within one directory is atomic (a death during move is observed either before or after it)",
                "os.remove in the exception handler succeeds", "a dying process leaves the temp file as the model says only up to OS buffering; the harness flushes the prefix"]
@@ -249,6 +252,95 @@ def e2e(ctx):
         shutil.rmtree(d, ignore_errors=True)
 
 
+# text fragments by the smallest repertoire that can encode them
+WORDS_LATIN1 = ["café", "naïve", "grüße", "señor", "Ångström", "crème brûlée", "ÁÉÍ"]
+WORDS_CP1252 = WORDS_LATIN1 + ["€ 10", "“quoted”", "œuvre"]
+WORDS_ANY = WORDS_CP1252 + ["→ arrow", "東京", "Ωμέγα", "naïve → café", "🙂"]
+BROKEN, FIXED = "SELECT a  from b;\n", "SELECT a FROM b;\n"
+
+
+def build_text(rng, size, where, words):
+    """~size bytes of SQL: ASCII comment padding + clean statements, ONE fixable statement, non-ASCII text only in the places `where` names."""
+    w = lambda: rng.choice(words)
+    head = "-- %s: header %s\nSELECT '%s' AS c FROM t1;\n" % (w(), w(), w()) if "begin" in where else "-- header\nSELECT 'x' AS c FROM t1;\n"
+    mid = "-- middle %s\nSELECT '%s' AS m FROM t2;\n" % (w(), w()) if "middle" in where else ""
+    tail = "-- total %s, %s\nSELECT '%s' AS z FROM t3;\n" % (w(), w(), w()) if "end" in where else "SELECT 'z' AS z FROM t3;\n"
+    pad = []
+    n = len((head + mid + tail + BROKEN).encode("utf-8"))
+    i = 0
+    while n < size:
+        line = "-- %04d %s\n" % (i, "licence text and notes " * rng.choice([1, 2, 3]))
+        pad.append(line)
+        n += len(line)
+        i += 1
+    half = len(pad) // 2
+    parts = [head] + pad[:half] + [mid] + pad[half:] + [tail]
+    parts.insert(rng.choice([1, 1 + half, len(parts) - 1, len(parts)]), BROKEN)
+    return "".join(parts)
+
+
+def e2e_encodings(ctx):
+    """A successful `sqlfluff fix` keeps the file's encoding: bytes outside the fixed range identical, still decodable."""
+    import codecs
+    from click.testing import CliRunner
+    from sqlfluff.cli import commands
+    rng = ctx.rng
+    base = os.environ.get("TMPDIR") or "/var/tmp"
+    quick = ctx.tier == "quick"
+    sizes = [1000, 9000, 15000] if quick else [300, 1000, 4000, 8150, 8250, 9000, 12000, 15000, 16500, 19000]
+    wheres = [("begin",), ("end",), ("begin", "end"), ("middle",)] + ([] if quick else [("middle", "end"), ()])
+    # (encoding the file is written in, --encoding argument or None for autodetection, repertoire)
+    encs = [("utf-8", None, WORDS_ANY), ("utf-8-sig", None, WORDS_ANY), ("latin-1", "latin-1", WORDS_LATIN1), ("utf-8", "utf-8", WORDS_ANY),
+            ("cp1252", "cp1252", WORDS_CP1252), ("utf-16", None, WORDS_ANY)]
+    combos = [(sz, wh, e) for sz in sizes for wh in wheres for e in encs[:2]]
+    rest = [(sz, wh, e) for sz in sizes for wh in wheres for e in encs[2:]]
+    rng.shuffle(rest)
+    combos += rest[: (8 if quick else 80)]
+    d = tempfile.mkdtemp(prefix="verif-c26enc-", dir=base)
+    try:
+        for idx, (size, where, (enc, arg, words)) in enumerate(combos):
+            text = build_text(rng, size, where, words)
+            want_text = text.replace(BROKEN, FIXED)
+            raw = text.encode(enc)
+            p = os.path.join(d, "f%d.sql" % idx)
+            with open(p, "wb") as f:
+                f.write(raw)
+            first = next((i for i, b in enumerate(text.encode("utf-8")) if b >= 128), None)
+            inp = {"size_bytes": len(raw), "non_ascii_in": list(where), "first_non_ascii_byte_offset(utf-8)": first, "file_encoding": enc,
+                   "--encoding": arg or "(autodetect)", "rules": "LT01,CP01", "head": text[:120], "tail": text[-160:]}
+            args = [p, "--dialect", "ansi", "--rules", "LT01,CP01"] + (["--encoding", arg] if arg else [])
+            r = CliRunner().invoke(commands.fix, args)
+            data = open(p, "rb").read()
+            os.remove(p)
+            left = os.listdir(d)
+            ctx.case(("enc", enc, arg, size, where), bucket="e2e-encoding-%s-%s" % (enc, "explicit" if arg else "auto"),
+                     sample=dict(inp, exit=r.exit_code) if idx == 5 else None)
+            attrs = {"encoding": enc, "explicit": bool(arg), "over_8k": len(raw) > 8192, "non_ascii_late_only": bool(where) and "begin" not in where}
+            if left:
+                ctx.violation("e2e-encoding-extra-files", "sqlfluff fix left extra files", {"input": inp, "dir": left}, attrs=attrs)
+                for f_ in left:
+                    os.remove(os.path.join(d, f_))
+            if data == raw:
+                # nothing was written (e.g. the file was skipped or could not be fixed): faithful, but not what this part is for
+                ctx.count("e2e-encoding-not-rewritten")
+                continue
+            try:
+                got_text = data.decode(enc)
+            except UnicodeDecodeError as e:
+                ctx.violation("e2e-encoding-lost", "after sqlfluff fix the file no longer decodes in its original encoding",
+                              {"input": inp, "error": str(e), "exit": r.exit_code}, attrs=attrs)
+                continue
+            if enc == "utf-8-sig" and not data.startswith(codecs.BOM_UTF8):
+                ctx.violation("e2e-encoding-bom", "sqlfluff fix dropped the UTF-8 BOM", {"input": inp, "exit": r.exit_code}, attrs=attrs)
+            if got_text != want_text:
+                i = next((i for i, (a, b) in enumerate(zip(got_text, want_text)) if a != b), min(len(got_text), len(want_text)))
+                ctx.violation("e2e-encoding-unfaithful", "sqlfluff fix changed text outside the fixed range (file read or written in a "
+                              "different encoding than its own)", {"input": inp, "first_difference_at_char": i, "got": got_text[max(0, i - 30):i + 60],
+                                                                   "want": want_text[max(0, i - 30):i + 60], "exit": r.exit_code}, attrs=attrs)
+    finally:
+        shutil.rmtree(d, ignore_errors=True)
+
+
 def run(ctx, coq_ok):
     cases = []
     orig, new = "abcé\n", "ABCDéx\n"
@@ -276,7 +368,7 @@ def run(ctx, coq_ok):
                 for k in range(1, 8):
                     for after in (False, True):
                         cases.append((k, 3 if k == 2 else 0, "die", after, mode, suffix, "utf-8-sig", orig, new))
-    with ThreadPoolExecutor(max_workers=14) as ex:
+    with ThreadPoolExecutor(max_workers=4) as ex:
         obs = list(ex.map(run_case, cases))
     # natural fault: unencodable character
     nat = run_case((99, 0, "none", False, 0o644, False, "ascii", "abc\n", "café\n"))
@@ -307,6 +399,7 @@ def run(ctx, coq_ok):
         if o["result"] == "done" and tgt != newf:
             ctx.violation("success-unfaithful", "successful write did not produce the new content with the original mode", {"input": inpt, "observed": o})
     e2e(ctx)
+    e2e_encodings(ctx)
     if not coq_ok:
         return
     model = coq.eval_sharded(["Model.AtomicWrite"], MODEL_FN, [model_lit(c) for c in cases], shard=200)
